@@ -836,7 +836,14 @@ def run(ctx):
                 'as Python int, numpy int32 / int64 / float32 scalars and arrays, alone and mixed with floats; corpus state_kinds.json on every run; the model keeps integers as '
                 'integers; for EVERY problem dtype, values and cumulative indices of the design vector that pymoto.utils._concatenate_to_array builds from the initial states '
                 'are compared with the typed model of Model/MMAvars.v); every recorded signal state at every response(), every warning and the final states '
-                'are compared bit-exactly (binary64) with the Coq model; a case is non-trivial when at least one design was written back; '
+                'are compared bit-exactly (binary64) with the Coq model; FROZEN VARIABLES: 120 deliberate problems on every run with xmin[i] == xmax[i] entries '
+                '(passive solid = 1, void = 0.01, exactly 0, intermediate values; the first entry of every signal, a third of the entries, a whole signal, all but one, '
+                'all, a single variable; start volume = target (also through the default maxvol) / target below / above within the move limits; move 0.15 / 0.05 / 0.5; '
+                'four objective families; bounds handed over as array / list / tuple / strided view / read-only array; for sum c/x the final design is compared with the '
+                'analytic optimum with passive entries) and 45 % of the generated per-variable bounds freeze some / most / all entries at the start value; the volume '
+                'clause is evaluated on the FULL design vector; SEVERAL RUNS PER PROCESS: after every run the three runs before it, and at the end all ~800 runs of the '
+                'process, are re-inspected (the variable signals still hold the final design, bound vectors and initial state arrays are unchanged), and every fifth '
+                'stress problem is run again at the end of the process and must reproduce its designs; a case is non-trivial when at least one design was written back; '
                 'distinct by the full problem description')
     ctx.assumptions += [
         'theorems are over the reals (sqrt = real square root); the binary64 instance of the same model is executed and compared '
